@@ -135,13 +135,17 @@ func checkPolicyCodecs(c *Case, force bool) (sub, msg string) {
 	allJSONTextOK := true
 	for _, np := range c.Policies {
 		obj := conv.ToPolicy(np.P)
-		if d, a, b, _ := same(r, func() ([]byte, error) { return obj.MarshalCedar(), nil }); d {
-			return "marshal/policy-cedar", diffMsg("Policy.MarshalCedar of one object", a, b)
+		d0, firstText, b0, _ := same(r, func() ([]byte, error) { return obj.MarshalCedar(), nil })
+		if d0 {
+			return "marshal/policy-cedar", diffMsg("Policy.MarshalCedar of one object", firstText, b0)
 		}
 		if d, a, b, _ := same(r, obj.MarshalJSON); d {
 			return "marshal/policy-json", diffMsg("Policy.MarshalJSON of one object", a, b)
 		}
 		text := obj.MarshalCedar()
+		if string(text) != firstText {
+			return "marshal/policy-cedar", diffMsg("Policy.MarshalCedar of one object before and after MarshalJSON", firstText, string(text))
+		}
 		if d, a, b, _ := same(r, func() ([]byte, error) {
 			var q cedar.Policy
 			if err := q.UnmarshalCedar(text); err != nil {
@@ -197,6 +201,9 @@ func checkPolicyCodecs(c *Case, force bool) (sub, msg string) {
 	d, setJSON, b, okJSON := same(r, set.MarshalJSON)
 	if d {
 		return "marshal/set-json", diffMsg("PolicySet.MarshalJSON of one object", setJSON, b)
+	}
+	if again := string(set.MarshalCedar()); again != setText {
+		return "marshal/set-cedar", diffMsg("PolicySet.MarshalCedar of one object before and after MarshalJSON", setText, again)
 	}
 	for _, perm := range c.Perms {
 		s2 := buildSet(c.Policies, perm)
@@ -499,7 +506,7 @@ var schemaBlocks = []block{
 		`@a @b("x") @c("y") entity User in [Group] { name: String, age?: Long, tags: Set<String> } tags String;`,
 		`entity Group;`,
 		`entity Doc { owner: User, meta: { a: Long, b: Bool, c: String } };`,
-		`entity Photo in [Album, Group];`,
+		`entity Photo in [Group, Album];`,
 		`entity Album;`,
 		`entity Color enum ["red", "green", "blue"];`,
 		`entity Size enum ["s", "m", "l"];`,
@@ -508,7 +515,7 @@ var schemaBlocks = []block{
 		`action edit in [view] appliesTo { principal: [User, Group], resource: [Doc] };`,
 		`@z("1") @y("2") @x("3") action "delete all" appliesTo { principal: User, resource: Doc, context: { force: Bool, why?: String, n: Long } };`,
 		`action grp;`,
-		`action list in [grp, view];`,
+		`action list in [view, grp];`,
 	}},
 	{"namespace NS1", []string{
 		`type T = Long;`, `type T2 = Set<T>;`, `type T3 = { a: T, b: T2, c: Bool };`,
@@ -517,7 +524,7 @@ var schemaBlocks = []block{
 		`action a1 appliesTo { principal: [E1], resource: [E2] };`, `action a2;`, `action a3 in [a2];`,
 	}},
 	{`@ns("x") @m("y") @k("z") namespace A::B`, []string{
-		`entity X;`, `entity Y;`, `entity Z in [X, Y];`,
+		`entity X;`, `entity Y;`, `entity Z in [Y, X];`,
 		`type U = { x: X };`, `type V = Long;`, `type W = String;`,
 		`entity Q enum ["1"];`, `entity Q2 enum ["2"];`, `entity Q3 enum ["3"];`,
 		`action q appliesTo { principal: [X], resource: [Y], context: U };`, `action r;`, `action s in [r, q];`,
@@ -611,6 +618,17 @@ func checkSchema(c *Case) (sub, msg string) {
 	}
 	if d, a, b, _ := same(c.R, s.MarshalJSON); d {
 		return "schema/marshal-json", diffMsg("Schema.MarshalJSON of one object", a, b)
+	}
+	// the two encoders interleaved on one object: neither may change what the other writes afterwards
+	c1, _ := s.MarshalCedar()
+	j1, _ := s.MarshalJSON()
+	c2, _ := s.MarshalCedar()
+	j2, _ := s.MarshalJSON()
+	if string(c1) != string(c2) || string(c1) != first[0] {
+		return "schema/marshal-cedar", diffMsg("Schema.MarshalCedar of one object before and after MarshalJSON", first[0], string(c2))
+	}
+	if string(j1) != string(j2) || string(j1) != first[1] {
+		return "schema/marshal-json", diffMsg("Schema.MarshalJSON of one object before and after MarshalCedar", string(j1), string(j2))
 	}
 	if c.Schema2 != "" {
 		var s2 schema.Schema
